@@ -7,7 +7,7 @@ from .common import (Exec, gen_history, Violation, weighted, random_mix, Fingerp
 ID = "C01"
 LEVEL = "exploration"
 TECHNIQUE = "deterministic simulation: seeded step scheduler over the real engine + mock clouds, virtual clock, split event intake"
-RULE = ("each run = (provider flavour pair, two-sided user history of 1-7 ops over a tiny name alphabet, schedule style "
+RULE = ("each run = (provider flavour pair - ids stable or paths, event filter on/off, case-sensitive, case-insensitive and mixed-case pairs (there with case-only renames in the mix and names differing only in case never generated as siblings) -, two-sided user history of 1-7 ops over a tiny name alphabet, schedule style "
         "eager|batched|bursty|split-intake, explicit engine-step interleaving) drawn from H(seed,index); executed on the "
         "real CloudSync/SyncManager/EventManager/SyncState with two MockProviders under a virtual clock; then faults off "
         "and run to quiet. distinct = distinct (history shape with names abstracted, schedule string, flavour); "
@@ -16,6 +16,7 @@ ASSUMPTIONS = ["MockProvider is the cloud contract (C16 ties it down)", "histori
                "atomic units are one event application / one entry synchronisation (C15 checks the lock discipline that makes this exhaustive of production interleavings)",
                "a clean batch is evidence, not proof"]
 
+CI_FLAVOURS = ("oo_ci", "oo_mix", "oo_xim")      # id-style mocks only: path ids + case-insensitive names is an unusable mock configuration (C16)
 FAMILIES_QUICK = (("eager", 5), ("batched", 3), ("bursty", 2), ("split", 2))
 FAMILIES_THOROUGH = (("eager", 2), ("batched", 4), ("bursty", 2), ("split", 4))
 
@@ -39,7 +40,7 @@ def _finish(ex, case, fp):
 
 
 def generate(rng, tier, index):
-    flav = rng.choice(ALL_FLAVOURS)
+    flav = rng.choice(ALL_FLAVOURS + CI_FLAVOURS)
     style = weighted(rng, FAMILIES_QUICK if tier == "quick" else FAMILIES_THOROUGH)
     nops = rng.randint(1, 7)
     cfg = {"flavour": flav}
@@ -48,7 +49,10 @@ def generate(rng, tier, index):
     ex.monitors.append(fp)
     case = {"prop": ID, "cfg": cfg, "style": style, "family": style}
     try:
-        gen_history(rng, ex, nops, style=style, mix=random_mix(rng))
+        mix = random_mix(rng)
+        if flav in CI_FLAVOURS:
+            mix["recase"] = 2           # case-only renames: a case-insensitive side must still carry them over
+        gen_history(rng, ex, nops, style=style, mix=mix)
     except Violation as e:
         case["plan"] = ex.plan
         return {"case": case, "violation": e.as_dict(), "stats": base_stats(ex, style, fp)}
